@@ -10,7 +10,7 @@ EXPLANATION = (
     "The staging and scheduling of systems is shred's dispatcher, re-exported by specs, and is not decided. What specs itself contributes is decided: "
     "R1 (declarations = borrows): for every impl of shred::SystemData in specs, the multiset of resource types borrowed shared in fetch() "
     "(World::fetch::<R>, Read/ReadExpect fetches) equals the multiset of ResourceId::new::<R> in reads(), and the multiset borrowed exclusively "
-    "(World::fetch_mut::<R>) equals the one in writes(); setup() creates exactly the resources fetch() will borrow that are not created by "
+    "(World::fetch_mut::<R>) equals the one in writes(); every such declaration and borrow is unconditional (on every path to return - a borrow declared only for some component types is an undeclared borrow for the others) and no declaration goes through a function-local static (one static is shared by all instantiations of a generic impl); setup() creates exactly the resources fetch() will borrow that are not created by "
     "World::new (C05-R1 checks their registration). R2: the storage handle's two halves are the declared ones: Storage::new is handed the "
     "EntitiesRes fetch and the MaskedStorage<T> fetch of the same T as the impl's component type. W5: on a storage fetched through the READ "
     "declaration none of insert / get_mut / remove / entry / restrict_mut / channel_mut / drain / clear / as_mut_slice type-checks (E0599), the same "
